@@ -27,7 +27,11 @@ def prepare():
 
 def snapshots(m):
     objs = [S.unwrap(o) for o in m.objs.values()]
-    return {"value": S.value_snapshot(m.system), "input": S.input_snapshot(objs), "links": S.link_snapshot(objs)}
+    snap = {"value": S.value_snapshot(m.system), "input": S.input_snapshot(objs), "links": S.link_snapshot(objs)}
+    # the values held by a what-if simulation are results too: reading (plotting the twins) must not alter them
+    sim = getattr(m, "sim", None)
+    snap["simulated"] = {("sim", i): S.canon(v) for i, v in enumerate(sim.recomputed_values)} if sim is not None else {}
+    return snap
 
 
 def compare(base, now):
@@ -35,6 +39,9 @@ def compare(base, now):
     d = S.diff(base["value"], now["value"])
     if d:
         out.append(("value-changed", d[0]))
+    d = S.diff(base.get("simulated", {}), now.get("simulated", {}))
+    if d:
+        out.append(("simulated-value-changed", d[0]))
     d = S.plain_diff(base["input"], now["input"])
     if d:
         out.append(("input-changed", d[0]))
@@ -96,13 +103,14 @@ def do_reads(m, tmpdir, which):
         for o in objs:
             for a in o.calculated_attributes:
                 v = getattr(o, a)
-                if isinstance(v, S.ExplainableHourlyQuantities) and n < 4:
+                twinned = getattr(v, "simulation_twin", None) is not None      # recomputed by a what-if simulation
+                if isinstance(v, S.ExplainableHourlyQuantities) and (n < 4 or (twinned and n < 16)):
                     n += 1
-                    try:
-                        v.plot(filepath=os.path.join(tmpdir, f"p{n}.png"))
-                        v.plot(cumsum=True)
-                    except Exception:  # noqa
-                        pass
+                    for kw in ({"filepath": os.path.join(tmpdir, f"p{n}.png")}, {"cumsum": True}):
+                        try:
+                            v.plot(**kw)
+                        except Exception:  # noqa
+                            pass
         plt.close("all")
         for o in objs[:3]:
             try:
@@ -206,6 +214,13 @@ def make_tasks(tier):
             chunk = 30 if fam != "W4" else 60
             for i in range(0, len(reqs), chunk):
                 tasks.append({"world": fam, "perms": {}, "history": hist, "requests": reqs[i:i + chunk]})
+    # states holding a what-if simulation (values switched back off): the read-only requests, twice each
+    for fam, date in (("W1", "2025-01-01 00:00 UTC"), ("W2", "2025-01-01 00:00 UTC"), ("W3", "2025-01-01 00:00 UTC")):
+        for change in (["set", "j1", "data_transferred", ["q", 300.0, "kilobyte"]],
+                       ["set", "sv", "power", ["q", 350.0, "watt"]]):
+            hist = [["sim", [change], date]]
+            tasks.append({"world": fam, "perms": {}, "history": hist,
+                          "requests": [["read", r] for r in READS] + [["read", r] for r in READS]})
     return tasks
 
 
